@@ -388,6 +388,16 @@ async fn scatter_sql_over_table(
                 participants[i].node_id, participants[i].address
             ))
         })?;
+        // The peer reports how many rows it produced; a payload that decodes
+        // cleanly to fewer (a stream cut at a message boundary still parses)
+        // is a truncated answer, not a smaller one.
+        let decoded_rows: usize = decoded.iter().map(|b| b.num_rows()).sum();
+        if decoded_rows != rows {
+            return Err(QueryError::Execution(format!(
+                "node {} ({}) reported {rows} rows for shard {i} but its payload decodes to {decoded_rows}",
+                participants[i].node_id, participants[i].address
+            )));
+        }
         contributions.push(NodeContribution {
             node_id: participants[i].node_id,
             address: participants[i].address.clone(),
